@@ -215,6 +215,11 @@ static void setup_cvs(void)
   vf_exc               = 0;
   g_cv1.contents_.d = g_a; g_cv1.contents_.h = 0; g_cv1.contents_.n = NT; g_cv1.contents_.cap = NT;
   g_cv2.contents_.d = g_b; g_cv2.contents_.h = 0; g_cv2.contents_.n = NT; g_cv2.contents_.cap = NT;
+  for (int k = 0; k < VFC_max_threads; k++) { /* statics are zero-initialised: make every slot symbolic */
+    g_a[k].value_ = nondet_unsigned();
+    g_b[k].value_ = nondet_unsigned();
+  }
+  gk = nondet_size(); /* a global is zero-initialised, not unconstrained: the ghost index must be drawn explicitly */
   __CPROVER_assume(gk < NT);
 }
 #ifdef H_max
